@@ -55,6 +55,8 @@ type FnCtx struct {
 	used       map[string]bool
 	entryVals  map[*ssa.Parameter]Val
 	entryTerms []entryTerm
+	sorts          map[string]string
+	constArrs      map[string]string
 	loopUnkPkgs    []*types.Package
 	loopUnkFuncArg bool
 	entryFrees map[*ssa.FreeVar]Val
@@ -75,6 +77,7 @@ func (c *FnCtx) freshName(hint string) string {
 
 func (c *FnCtx) freshConst(hint, sort string) string {
 	n := c.freshName(hint)
+	c.sorts[n] = sort
 	c.declare(n, fmt.Sprintf("(declare-const %s %s)", n, sort))
 	return n
 }
@@ -181,6 +184,9 @@ func (s *State) define(hint, sort, term string) string {
 		return term
 	}
 	n := s.c.freshName(hint)
+	if strings.HasPrefix(sort, "(Array") {
+		s.c.sorts[n] = sort
+	}
 	s.lines = append(s.lines, fmt.Sprintf("(define-fun %s () %s %s)", n, sort, term))
 	return n
 }
@@ -199,6 +205,7 @@ func (s *State) heapGet(key, sort string) string {
 		return t
 	}
 	n := fmt.Sprintf("H!%s!%d", sanitize(key), s.rootEpoch(key))
+	s.c.sorts[n] = sort
 	s.c.declare(n, fmt.Sprintf("(declare-const %s %s)", n, sort))
 	s.heap[key] = n
 	return n
@@ -626,8 +633,24 @@ func (s *State) zeroElemsPath(base string, et types.Type, path []int) {
 		key := elemKey(et, path, c.Suffix)
 		srt := arrSort(sInt, arrSort(sInt, c.Sort))
 		h := s.heapGet(key, srt)
-		s.heapSet(key, srt, sto(h, base, fmt.Sprintf("((as const %s) %s)", arrSort(sInt, c.Sort), z[i])))
+		s.heapSet(key, srt, sto(h, base, s.constArr(arrSort(sInt, c.Sort), z[i])))
 	}
+}
+
+// constArr is the array that maps every index to zero; cvc5 accepts `as const` only for value literals.
+func (s *State) constArr(sort, zero string) string {
+	if zero != "emp" {
+		return fmt.Sprintf("((as const %s) %s)", sort, zero)
+	}
+	if n, ok := s.c.constArrs[sort]; ok {
+		return n
+	}
+	n := s.c.freshConst("zeros", sort)
+	i := fmt.Sprintf("i!%d", s.c.fresh)
+	s.c.fresh++
+	s.c.declare(n+"!ax", fmt.Sprintf("(assert (forall ((%s Int)) (! (= (select %s %s) %s) :pattern ((select %s %s)))))", i, n, i, zero, n, i))
+	s.c.constArrs[sort] = n
+	return n
 }
 
 func (s *State) initStruct(r string, t types.Type) {
